@@ -259,15 +259,26 @@ def run_outerr(cfg, acc):
                 kw = vkw(cfg)
                 sink = edzed.Input('sink', initdef=None)
                 ev = edzed.Event(sink, 'put', efilter=boom)
-                if cfg['kind'] == 'Input':
-                    blk = edzed.Input('inp', initdef=init[0], on_output=ev, **kw)
-                else:
-                    blk = edzed.InputExp('inp', duration=10, expired=copy.copy(expired_value(cfg)[0]),
-                                         initdef=init[0], on_output=ev, **kw)
+                try:
+                    if cfg['kind'] == 'Input':
+                        blk = edzed.Input('inp', initdef=init[0], on_output=ev, **kw)
+                    else:
+                        blk = edzed.InputExp('inp', duration=10, expired=copy.copy(expired_value(cfg)[0]),
+                                             initdef=init[0], on_output=ev, **kw)
+                except Exception as err:    # pylint: disable=broad-except
+                    acc.violation(f"C17:ctor-refused-valid-initdef:{cfg['kind']}",
+                                  f"initdef {init[0]!r} is acceptable for [{a},{c},{s}] but the "
+                                  f"constructor raised {err!r}", cfg=cfg)
+                    return
 
                 async def driver():
                     task = asyncio.create_task(sim.circuit.run_forever())
-                    await sim.circuit.wait_init()
+                    try:
+                        await sim.circuit.wait_init()
+                    except edzed.EdzedInvalidState as err:
+                        res['start_err'] = repr(err)
+                        del task
+                        return
                     armed.append(1)
                     res['before'] = (blk.output, copy.deepcopy(blk.get_state()))
                     try:
@@ -280,6 +291,11 @@ def run_outerr(cfg, acc):
                     await stop(sim.circuit)
                     del task
                 sim.run(driver())
+            if 'start_err' in res:
+                acc.violation(f"C17:start-refused-valid-initdef:{cfg['kind']}",
+                              f"initdef {init[0]!r} is acceptable for [{a},{c},{s}] but the start failed: "
+                              f"{res['start_err']}", cfg=cfg)
+                return
             acc.outcome(('outerr', cfg['kind'], a, c, s, exc.__name__, repr(v0), repr(res.get('ret')), res.get('dead')))
             acc.state(('outerr', cfg['kind'], ok, type(res.get('ret')).__name__, res.get('dead')))
             tag = f"{cfg['kind']} [{a},{c},{s}] whose output event fails with {exc.__name__}: put({v0!r})"
